@@ -699,7 +699,26 @@ class Gen:
         out = []
         alpha = "abMx  \t019+-ulimted"
         for _ in range(n):
-            k = rng.below(6)
+            k = rng.below(7)
+            if k == 6:
+                # jmp [rbx]: a u64 read out of the memory list near the end of a region, with / without neighbours
+                rb = rng.choice([0x5000, 0x5000, 0x10000, 0x10030, 0x3ffff8, 0x400002, U64 - 31, U64 - 7, 1 << 32])
+                rl = rng.choice([1, 7, 8, 9, 15, 16, 24, 64])
+                addr = rb + rl - rng.range(0, min(rl, 12)) if rng.chance(5, 6) else rng.choice([rb, rb + rl, rb + rl + 1, 0, U64, 0x10038, 0x10039, 0x3ffffe, 0x400000, 0x400001])
+                regs = [(rb, rl)]
+                nb = rb + rl
+                kk = rng.below(5)
+                if kk <= 1 and nb <= U64:
+                    regs.append((nb, rng.choice([0, 1, 7, 8, 16])))
+                elif kk == 2:
+                    regs.append((max(0, nb - rng.range(1, 4)), rng.choice([4, 8, 16])))
+                elif kk == 3 and nb + 1 <= U64:
+                    regs.append((nb + 1, 8))
+                if rng.chance(1, 3):
+                    regs.reverse()
+                regs = [(b, min(l, U64 - b + 1)) for (b, l) in regs if b <= U64]
+                out.append("U %d %d %d %s" % (rng.below(2), addr & U64, len(regs), " ".join("%d %d" % x for x in regs)))
+                continue
             if k == 5:
                 # instruction fetch: regions around the instruction pointer, planted instruction of L bytes
                 mem64 = rng.below(2)
@@ -800,7 +819,7 @@ class C03(PropBase):
             "INLINE records of hostile nesting levels up to 4294967295, gaps, many records, with/without INLINE_ORIGIN / FILE) and `straddle` "
             "(exception instruction pointer in the last 1..15 bytes of a memory region, with/without a directly following / overlapping / "
             "one-byte-apart region of 0..20 bytes, MemoryList or Memory64List, instruction encodings of every length). L/G/S/J/A/I cases drive "
-            "the site models (I = instruction-bytes fetch). Non-trivial = "
+            "the site models (I = instruction-bytes fetch, U = u64 read through the memory list for jmp [rbx]). Non-trivial = "
             "processing returned Ok with at least one thread, or a site answer; distinct = distinct case lines")
     trusted_base = [
         "Coq 8.16.1 kernel (vm_compute only in refutation witnesses and Examples)",
@@ -830,7 +849,7 @@ class C03(PropBase):
                 "c03_process_total_partial states all stages together with C05's imported frame bound; round 4: the crashing-instruction fetch "
                 "(region lookup through the C08 table, ip - base, &bytes[offset..]) returns at least one byte and never slices out of range for any region layout "
                 "(c03_instr_fetch_total, c03_memory_at_sound), fill_symbol's inline-level enumeration performs at most |INLINE records| + 1 lookups whatever depths the records carry "
-                "(c03_inline_levels_bound), and the two seeded variants of these sites are refuted in the model (c03_instr_fetch_stitch_refuted, c03_inline_maxdepth_refuted); refutations with "
+                "(c03_inline_levels_bound), a jmp/call target is only read when all 8 bytes lie in one region (c03_read_u64_inside_one_region, c03_read_u64_never_stitches), PPC/PPC64/SPARC/unknown contexts walk to exactly the context frame (c03_no_unwinder_single_frame), translate/c03_sites.py regenerates the dispatch table and constants from the source and pins the shape of every modelled function (c03_sites_match_source), and the two seeded variants of these sites are refuted in the model (c03_instr_fetch_stitch_refuted, c03_inline_maxdepth_refuted); refutations with "
                 "witnesses for the three defects fixed in /repo (F-C03b, F-C03c, F-C03g). The models are compared with whole-dump processing on "
                 "generated site cases. Everything else (unwinder loop, symbol walkers, disassembler, JSON writer, scheduling) is covered by search only: "
                 "structured hostile dumps x generated/corrupted symbols x three option sets through process_minidump_with_options and print / "
@@ -887,7 +906,7 @@ class C03(PropBase):
         if ans.startswith("P;;"):
             return "panic while processing or rendering: " + ans[3:240]
         kind = case[0]
-        if kind in "LGSJAI":
+        if kind in "LGSJAIU":
             if not ans.startswith(kind + " ") and ans != kind:
                 return "unparseable site answer " + ans[:100]
             if kind == "G" and ans == "G -":
@@ -925,7 +944,7 @@ class C03(PropBase):
         return None
 
     def nontrivial(self, case, ans):
-        if case[0] in "LGSJAI":
+        if case[0] in "LGSJAIU":
             return not ans.startswith("P;;")
         return " r=ok " in ans and " thr=0 " not in ans
 
